@@ -35,18 +35,18 @@ Proof.
   - destruct (N.eqb m' m2); auto.
 Qed.
 
-Lemma store_get_touch_other m m' st : m' <> m -> store_get m' (store_touch m st) = store_get m' st.
+Lemma store_get_touch_other now m m' st : m' <> m -> store_get m' (store_touch now m st) = store_get m' st.
 Proof.
   intros NE. unfold store_touch. destruct (store_mem m st); [reflexivity|].
   now apply store_get_set_other.
 Qed.
 
-(* GetDatum never changes what a slot reads as: an absent slot reads as the zero datum *)
-Lemma store_get_touch m m' st : store_get m' (store_touch m st) = store_get m' st.
+(* GetDatum never changes the value a slot reads as: an absent slot reads as 0 *)
+Lemma store_get_touch now m m' st : d_val (store_get m' (store_touch now m st)) = d_val (store_get m' st).
 Proof.
   unfold store_touch. destruct (store_mem m st) eqn:E; [reflexivity|].
-  destruct (N.eq_dec m' m) as [->|NE]; [|now apply store_get_set_other].
-  rewrite store_get_set_same.
+  destruct (N.eq_dec m' m) as [->|NE]; [|now rewrite store_get_set_other].
+  rewrite store_get_set_same. cbn.
   induction st as [|[m2 c2] r IH]; cbn in *; [reflexivity|].
   destruct (N.eqb m m2); [discriminate|auto].
 Qed.
@@ -60,7 +60,7 @@ Proof.
     + rewrite IH. destruct (N.eqb m' m2) eqn:E2; [|reflexivity]. now rewrite orb_true_r.
 Qed.
 
-Lemma store_mem_touch m st : store_mem m (store_touch m st) = true.
+Lemma store_mem_touch now m st : store_mem m (store_touch now m st) = true.
 Proof.
   unfold store_touch. destruct (store_mem m st) eqn:E; [exact E|].
   now rewrite store_mem_set, N.eqb_refl.
